@@ -323,10 +323,12 @@ func (p *Plugin) filterNodeUsage(nodeName string, pod *corev1.Pod, usageThreshol
 			continue
 		}
 		estimated := estimatedUsed[i]
-		usage := int64(math.Round(float64(estimated) / float64(total) * 100))
-		if usage <= value {
+		// compare exactly: rounding the percentage first would let a node that is up to half a percentage
+		// point above the threshold pass.
+		if estimated*100 <= value*total {
 			continue
 		}
+		usage := int64(math.Round(float64(estimated) / float64(total) * 100))
 
 		reason := ErrReasonUsageExceedThreshold
 		if isAgg {
